@@ -247,6 +247,12 @@ structure LuauMode where
   aliases : List (Name × Path)
   rc : Option (List (Name × Path))
 
+/-- utils/luau_config.rs: find_luau_configuration_private, the alias map read from the
+`.luaurc` of directory `dir`: every key gets its `@`, every value is joined to the directory of
+that `.luaurc` (NOT to the darklua configuration's location) and normalised -/
+def luauRcAliases (dir : Path) (entries : List (Name × Path)) : List (Name × Path) :=
+  entries.map fun e => ('@' :: e.1, normalize false (push dir e.2))
+
 /-- PathRequireMode::get_source: `sources` joined to the project location, else `.luaurc` -/
 def getSourcePath (m : PathMode) (name : Name) (rel : Path) : Option Path :=
   match lookup m.sources name with
